@@ -60,6 +60,15 @@ class Collector:
     def guard(self, case, fn, *a, **k):
         """Run one case; a harness exception is inconclusive, never a verdict."""
         try:
+            # migen's tracer keeps every object it ever named in two module-level tables and scans them linearly for each new
+            # Signal: thousands of elaborations in one process become quadratic (and names would depend on the cases that ran
+            # before). Each case starts from empty tables.
+            import migen.fhdl.tracer as _t
+            _t.classname_to_objs.clear()
+            _t.name_to_idx.clear()
+        except Exception:
+            pass
+        try:
             return fn(*a, **k)
         except Exception:
             from lib import env
